@@ -219,9 +219,32 @@ theorem bler_reject (s : Bler) (b : Nat) (rows : List (List Bool)) :
       simp only [Bool.false_eq_true, if_false, true_iff]
       exact ⟨r, hr, hne⟩
 
+/-! ## complex-form symbols: the tie hands the model the real code `2·re + im` of each symbol -/
+/-- the real code the tie gives a complex-form symbol `re + j·im` (`re, im ∈ {0,1}`) -/
+def symCode (re im : Bool) : Nat := 2 * re.toNat + im.toNat
+
+/-- two complex-form symbols are equal exactly when their codes are -/
+theorem symCode_injective : ∀ a b c d : Bool, symCode a b = symCode c d ↔ (a = c ∧ b = d) := by decide
+
+/-- a block of symbols differs somewhere iff the block of codes does: the BLER model, which sees only the codes, counts the
+same blocks in error as a comparison of both real and imaginary parts -/
+theorem symCode_blocks (xs ys : List (Bool × Bool)) :
+    xs.map (fun p => symCode p.1 p.2) = ys.map (fun p => symCode p.1 p.2) ↔ xs = ys := by
+  induction xs generalizing ys with
+  | nil => cases ys <;> simp
+  | cons x xs ih =>
+    cases ys with
+    | nil => simp
+    | cons y ys =>
+      simp only [List.map_cons, List.cons.injEq, ih, symCode_injective]
+      constructor
+      · rintro ⟨⟨h1, h2⟩, h3⟩; exact ⟨Prod.ext h1 h2, h3⟩
+      · rintro ⟨h, h3⟩; exact ⟨⟨congrArg Prod.fst h, congrArg Prod.snd h⟩, h3⟩
+
 /-! ## non-vacuity -/
 example : WF ([true, false], [false, false]) ∧
     (feed Ber.init [([true, false], [false, false]), ([true], [true])]).compute = (1, 3) := ⟨rfl, by decide⟩
+example : symCode true false ≠ symCode true true := by decide
 example : blockErrors 2 [true, false, false, false, true, true] = 2 := by
   unfold blockErrors; simp [chunks]
 
